@@ -173,10 +173,12 @@ func genElem(r *rand.Rand, d int, o *GenOpts) schema.Constraint {
 }
 
 func genMods(r *rand.Rand) lang.SemanticTokenModifiers {
-	if r.Intn(3) == 0 {
-		return lang.SemanticTokenModifiers{lang.SemanticTokenModifier(pick(r, []string{"m-a", "m-b", "hcl-dependent"}))}
+	n := []int{0, 0, 0, 1, 1, 2, 2, 3}[r.Intn(8)]
+	var m lang.SemanticTokenModifiers
+	for i := 0; i < n; i++ {
+		m = append(m, lang.SemanticTokenModifier(pick(r, []string{"m-a", "m-b", "m-c", "m-d", "hcl-dependent"})+fmt.Sprint(i)))
 	}
-	return nil
+	return m
 }
 
 func genAttrSchema(r *rand.Rand, d int, o *GenOpts, allowAddr bool) *schema.AttributeSchema {
@@ -903,7 +905,7 @@ func mergeForGen(st, dep *schema.BodySchema) *schema.BodySchema {
 
 func genConfig(r *rand.Rand, bs *schema.BodySchema, inject bool) (string, []Decl) {
 	g := &cfgGen{r: r, eg: &exprGen{r: r}, inj: inject}
-	g.body(bs, 0, 3)
+	g.body(bs, 0, 4)
 	s := g.sb.String()
 	if r.Intn(12) == 0 {
 		s = strings.ReplaceAll(s, "\n", "\r\n")
